@@ -610,7 +610,10 @@ def crowd_retry(s):
         if r.random() < 0.6:
             c.drop()
 
-    intruder("s3")
+    # a third side may look like one of the first two (letter case, surrounding blanks, compatibility forms):
+    # side ids are compared exactly, it is still a third side
+    twins = ["S1", "S2", "s1 ", " s2", "\uff531", "s\u00b9"]
+    intruder(r.choice(["s3", "s3", r.choice(twins)]))
     for _round in range(r.choice([1, 2, 3])):
         # one of the first two comes back on a fresh connection and re-sends
         back = Client(s, app, r.choice(["s1", "s2"]))
@@ -624,9 +627,9 @@ def crowd_retry(s):
         if r.random() < 0.5:
             back.drop()
         pause(s)
-        intruder(r.choice(["s3", "s3", "s4"]))
+        intruder(r.choice(["s3", "s3", "s4", r.choice(twins)]))
     A.cmd({"type": "add", "phase": "p", "body": "aa03"})
-    intruder("s4")
+    intruder(r.choice(["s4", "s4", r.choice(twins)]))
 
 
 SCRIPTS["crowd-retry"] = crowd_retry
@@ -803,6 +806,131 @@ def np_cross(s):
 
 
 SCRIPTS["np-cross"] = np_cross
+
+
+def _claimed_mb(o):
+    for e in o["log"]:
+        if e[0] == "F" and e[3] == "claimed" and isinstance(e[4], str):
+            return bytes.fromhex(e[4]).decode("utf-8")
+    return None
+
+
+def pipeline(s):
+    """C01 C02 C03 C07 C08 C09 C14 (every change that answers first and works later): commands that arrive within
+    ONE reactor turn -- several frames in one socket read, several sockets readable in one poll.  The events
+    between burst(True) and burst(False) carry same_turn: the world lets no reactor turn pass after them, so work
+    queued for 'the next turn' runs only after the whole burst.  The code as it is queues nothing, and the model
+    handles every command atomically; the flavours are the pairs where late work would land on the wrong object:
+    add + last close, re-sent release + re-claim, re-sent close + open by the peer, release + claim by the peer."""
+    r = s.rng
+    def burst(on):
+        s.burst = 1.0 if on else 0.0
+    app = r.choice(["a1", "a2"])
+    for _ in range(r.choice([2, 3, 4])):
+        name = r.choice(["1", "2", "6"])
+        fl = r.choice(["add-close", "dup-release-reclaim", "release-reclaim", "dup-close-reopen", "close-reopen", "mixed"])
+        a = Client(s, app, "s1")
+        mb = _claimed_mb(a.cmd({"type": "claim", "nameplate": name})) or "m1"
+        two = r.random() < 0.5
+        b = None
+        if two:
+            b = Client(s, app, "s2")
+            b.cmd({"type": "claim", "nameplate": name})
+            b.cmd({"type": "open", "mailbox": mb})
+        a.cmd({"type": "open", "mailbox": mb})
+        a.cmd({"type": "add", "phase": "pake", "body": "01"})
+        if two:
+            b.cmd({"type": "add", "phase": "pake", "body": "02"})
+            b.cmd({"type": "release"})
+        if fl == "add-close":
+            a.cmd({"type": "release"})
+            if two:
+                b.cmd({"type": "close", "mood": "happy"})
+            burst(True)
+            a.cmd({"type": "add", "phase": "last", "body": "ff"})
+            if r.random() < 0.3:
+                a.cmd({"type": "add", "phase": "last2", "body": "fe"})
+            burst(False)
+            a.cmd({"type": "close", "mood": "happy"})
+            a.drop()
+            if r.random() < 0.3:
+                s.emit({"k": "restart"})
+                s.cinfo.clear()
+            c = Client(s, app, r.choice(["s1", "s3"]))
+            c.cmd({"type": "open", "mailbox": mb})                  # the id again: must start empty
+            c.cmd({"type": "add", "phase": "new", "body": "10"})
+            c.cmd({"type": "close", "mood": "lonely"})
+            c.drop()
+        elif fl in ("dup-release-reclaim", "release-reclaim"):
+            if two:
+                b.cmd({"type": "close", "mood": "happy"})
+            a.cmd({"type": "close", "mood": "happy"})
+            a.cmd({"type": "release"})                                # the last claimer: the nameplate is retired
+            a.drop()
+            burst(True)
+            if fl == "dup-release-reclaim":
+                d = Client(s, app, "s1")
+                d.cmd({"type": "release", "nameplate": name})         # the re-sent release (its answer was lost)
+                d.drop()
+            n = Client(s, app, "s1")
+            burst(False)
+            mb2 = _claimed_mb(n.cmd({"type": "claim", "nameplate": name}))   # a new incarnation, claimed by s1
+            p = Client(s, app, "s2")
+            mb3 = _claimed_mb(p.cmd({"type": "claim", "nameplate": name}))   # the peer must join it
+            p.cmd({"type": "list"})
+            for c in (n, p):
+                if r.random() < 0.7:
+                    c.cmd({"type": "release"})
+                c.drop()
+        elif fl in ("dup-close-reopen", "close-reopen"):
+            a.cmd({"type": "release"})
+            if two:
+                b.cmd({"type": "close", "mood": "happy"})
+            a.cmd({"type": "close", "mood": "happy"})                 # the last side: the mailbox is retired
+            a.drop()
+            burst(True)
+            if fl == "dup-close-reopen":
+                d = Client(s, app, "s1")
+                d.cmd({"type": "close", "mailbox": mb, "mood": "happy"})   # the re-sent close
+                d.drop()
+            p = Client(s, app, "s2")
+            burst(False)
+            p.cmd({"type": "open", "mailbox": mb})                    # the id again, by the peer, within the same turn
+            p.cmd({"type": "add", "phase": "new", "body": "20"})
+            p.cmd({"type": "close", "mood": "lonely"})
+            p.drop()
+        else:
+            burst(True)
+            s.burst = 0.7
+            if not two:
+                b = Client(s, app, "s2")
+                b.cmd({"type": "claim", "nameplate": name})
+                b.cmd({"type": "open", "mailbox": mb})
+                b.cmd({"type": "add", "phase": "pake", "body": "02"})
+                b.cmd({"type": "release"})
+            a.cmd({"type": "release"})
+            a.cmd({"type": "add", "phase": "v", "body": "03"})
+            b.cmd({"type": "add", "phase": "v", "body": "04"})
+            order = [a, b]
+            r.shuffle(order)
+            order[0].cmd({"type": "close", "mood": "happy"})
+            order[1].cmd({"type": "close", "mood": "happy"})
+            order[0].drop()
+            c = Client(s, app, "s3")
+            c.cmd({"type": "claim", "nameplate": name})
+            c.cmd({"type": "list"})
+            order[1].drop()
+            burst(False)
+            c.cmd({"type": "release"})
+            c.drop()
+        if b is not None:
+            b.drop()
+        a.drop()
+        burst(False)
+        pause(s)
+
+
+SCRIPTS["pipeline"] = pipeline
 
 
 def run(name, session):
